@@ -1207,6 +1207,37 @@ fn judge(calls: &[Call], content: &[u8], api_errs: &[Option<String>]) -> Verdict
     Verdict { fails, n_ops: rops.len(), outcome }
 }
 
+/// The three layers on operators the library returns as text (`structure::MarkedContent`),
+/// with a fully modelled expectation. Returns (key suffix, detail).
+fn judge_text_stream(content: &[u8], exp: &[Exp]) -> Vec<(String, String)> {
+    let mut fails: Vec<(String, String)> = Vec::new();
+    let shown = || vx::show_bytes(content, 300);
+    let (rops, issues) = match rc::parse_content_strict(content) {
+        Ok(x) => x,
+        Err(e) => return vec![("structure-mc-stream-does-not-tokenise".into(), format!("refpdf: {e}; stream={}", shown()))],
+    };
+    if let Some(first) = issues.iter().find(|i| i.kind != IssueKind::Nesting) {
+        fails.push((format!("structure-mc-emitted-invalid-{:?}", first.kind), format!("{}; stream={}", first.msg, shown())));
+    }
+    match vx::guard(|| ContentParser::parse(content)) {
+        Err(p) => fails.push(("library-parser-panics-on-own-output".into(), format!("{p}; stream={}", shown()))),
+        Ok(Err(e)) => fails.push(("library-parser-rejects-own-output".into(), format!("{e}; stream={}", shown()))),
+        Ok(Ok(lops)) => {
+            let conv: Vec<Option<ContentOperation>> = rops.iter().map(to_lib).collect();
+            if conv.iter().all(|c| c.is_some()) {
+                let want: Vec<ContentOperation> = conv.into_iter().flatten().collect();
+                if want != lops {
+                    fails.push(("structure-mc-parsers-disagree".into(), format!("refpdf {want:?} / library {lops:?}; stream={}", shown())));
+                }
+            }
+        }
+    }
+    if let Err((what, detail)) = match_model(&rops, exp) {
+        fails.push((format!("structure-mc-issued-vs-parsed-{what}"), format!("{detail}; stream={}", shown())));
+    }
+    fails
+}
+
 /// Layer (c) for a sequence that ends in an unmodelled composite: the modelled prefix must match.
 fn match_model_prefix(ops: &[ROp], exp: &[Exp]) -> Result<(), (String, String)> {
     match match_model(ops, exp) {
@@ -1652,6 +1683,90 @@ pub fn run(rep: &mut Report) {
             _ => vec![Call::MoveTo(1.0, 2.0), begin, Call::LineTo(3.0, 4.0), Call::Stroke, Call::EndMC],
         };
         run_case(c, &calls);
+    });
+
+    // ---- structure::MarkedContent: BMC/BDC/EMC returned as text, property strings over {A ( ) \}
+    rep.explore("structure-marked-content", Explore::full(), |c: &mut Ctx| {
+        use oxidize_pdf::structure::{MarkedContent, MarkedContentProperty as P};
+        const ALPHA: [char; 4] = ['A', '(', ')', '\\'];
+        // every string of length 0..=2 over the alphabet
+        let pick_string = |c: &mut Ctx, label: &'static str| -> String {
+            let len = c.choose(label, 3);
+            (0..len).map(|_| ALPHA[c.choose("char", 4)]).collect()
+        };
+        const TAGS: [&str; 3] = ["Span", "P", "H1"];
+        let tag = *c.pick_from("tag", &TAGS);
+        let shape = c.choose("shape", 8);
+        let mut mc = MarkedContent::new();
+        let mut exp: Vec<Exp> = vec![Exp::Op("BT", vec![]), Exp::Op("Tf", vec![X::Name("F1".into()), X::Num(12.0, 9)]), Exp::Op("Td", vec![n2(72.0), n2(700.0)])];
+        let sx = |s: &str| X::Str(s.as_bytes().to_vec());
+        let r: Result<(), String> = (|| {
+            let e = |r: oxidize_pdf::Result<&mut MarkedContent>| r.map(|_| ()).map_err(|e| e.to_string());
+            match shape {
+                0 => {
+                    e(mc.begin(tag))?;
+                    exp.push(Exp::Op("BMC", vec![X::Name(tag.into())]));
+                }
+                1 => {
+                    e(mc.begin_with_mcid(tag, 7))?;
+                    exp.push(Exp::Op("BDC", vec![X::Name(tag.into()), X::Dict(vec![("MCID".into(), X::Int(7))])]));
+                }
+                2..=5 => {
+                    let s = pick_string(c, "len");
+                    let (key, prop) = match shape {
+                        2 => ("ActualText", P::ActualText(s.clone())),
+                        3 => ("Alt", P::Alt(s.clone())),
+                        4 => ("E", P::E(s.clone())),
+                        _ => ("Lang", P::Lang(s.clone())),
+                    };
+                    e(mc.begin_with_typed_properties(tag, &[prop]))?;
+                    exp.push(Exp::Op("BDC", vec![X::Name(tag.into()), X::Dict(vec![(key.into(), sx(&s))])]));
+                }
+                6 => {
+                    let s1 = pick_string(c, "len");
+                    let s2 = pick_string(c, "len2");
+                    e(mc.begin_with_typed_properties(tag, &[P::MCID(3), P::ActualText(s1.clone()), P::Alt(s2.clone())]))?;
+                    exp.push(Exp::Op("BDC", vec![X::Name(tag.into()), X::Dict(vec![("MCID".into(), X::Int(3)), ("ActualText".into(), sx(&s1)), ("Alt".into(), sx(&s2))])]));
+                }
+                _ => {
+                    // nested: typed properties inside a plain BMC
+                    let s = pick_string(c, "len");
+                    e(mc.begin("Sect"))?;
+                    exp.push(Exp::Op("BMC", vec![X::Name("Sect".into())]));
+                    e(mc.begin_with_typed_properties(tag, &[P::E(s.clone()), P::MCID(0)]))?;
+                    exp.push(Exp::Op("BDC", vec![X::Name(tag.into()), X::Dict(vec![("E".into(), sx(&s)), ("MCID".into(), X::Int(0))])]));
+                    e(mc.end())?;
+                    exp.push(Exp::Op("EMC", vec![]));
+                }
+            }
+            e(mc.end())?;
+            exp.push(Exp::Op("EMC", vec![]));
+            Ok(())
+        })();
+        if let Err(e) = r {
+            c.fail("C21/structure-mc-api-refuses-valid-input", format!("tag={tag} shape={shape}: {e}"));
+            return;
+        }
+        let text = match mc.finish() {
+            Ok(t) => t,
+            Err(e) => {
+                c.fail("C21/structure-mc-api-refuses-valid-input", format!("finish: {e}"));
+                return;
+            }
+        };
+        exp.push(Exp::Op("Tj", vec![X::Str(b"x".to_vec())]));
+        exp.push(Exp::Op("ET", vec![]));
+        let stream = format!("BT /F1 12 Tf 72 700 Td {text}(x) Tj ET\n").into_bytes();
+        c.input(vx::hbytes(&stream));
+        c.nontrivial();
+        let fails = judge_text_stream(&stream, &exp);
+        c.outcome(vx::h64(&fails.iter().map(|f| f.0.clone()).collect::<Vec<_>>()));
+        for (k, d) in fails {
+            c.fail(format!("C21/{k}"), format!("tag={tag} shape={shape}: {d}"));
+        }
+        if c.want_sample() {
+            c.sample(json!({"stream": String::from_utf8_lossy(&stream)}));
+        }
     });
 
     // ---- parser half
